@@ -236,7 +236,7 @@ func opRerootMidPoint(h *hist) *Event {
 
 func opRemoveTips(h *hist) *Event {
 	all := h.p.tipNames()
-	if len(all) < 4 || !h.singleChildFree() {
+	if len(all) < 4 {
 		return nil
 	}
 	var names []string
@@ -764,10 +764,27 @@ func opNNIAll(h *hist) *Event {
 	if !h.binary() || len(h.p.tipNames()) > 12 {
 		return nil
 	}
-	ev := &Event{Op: "NNIAll"}
+	// half of the time the proposals are kept and tried after the enumeration has returned (each one applied, recorded,
+	// undone): the proposals must be independent objects
+	collect := h.r.Intn(2) == 0
+	ev := &Event{Op: "NNIAll", Args: map[string]interface{}{"collect": collect}}
 	nb := []*PTree{}
 	guard(ev, func() error {
 		var err error
+		if collect {
+			var list []tree.Rearrangement
+			(&tree.NNIRearranger{}).Rearrange(h.t, func(r tree.Rearrangement) bool { list = append(list, r); return true })
+			for _, r := range list {
+				if err = r.Apply(); err != nil {
+					return err
+				}
+				nb = append(nb, project(h.t, ProjOpt{}))
+				if err = r.Undo(); err != nil {
+					return err
+				}
+			}
+			return nil
+		}
 		(&tree.NNIRearranger{}).Rearrange(h.t, func(r tree.Rearrangement) bool {
 			if err = r.Apply(); err != nil {
 				return false
@@ -870,6 +887,9 @@ func runEditHistories(cfg editCfg, from, to int, path string) (events int, ops m
 		}
 		if cfg.prop == "C05" && r.Intn(3) == 0 {
 			gp.LenTies = true
+		}
+		if (cfg.prop == "C06" || cfg.prop == "C03" || cfg.prop == "C15") && r.Intn(4) == 0 {
+			gp.PSingle = 0.2 // chains of single-child nodes in the initial tree
 		}
 		s := genSTree(r, &gp)
 		t, err := build(s)
